@@ -264,20 +264,20 @@ theorem filterMap_filter_eq_map_filter {α β} (l : List α) (p q : α → Bool)
     cases hp : p x <;> cases hq : q x <;> simp [hp, hq] at hx <;> simp [hp, hq, ih, hx]
 
 /-- the related nodes the loop of `RelationConstraint.match` evaluates, with repetitions -/
-def relElig (t : Pk.Ref.Tbl) (w : World) (r : RFlat) (child : Bool) (cls : List Claim) : List Ref :=
+def relElig (t : Pk.Ref.Tbl) (w : World) (r : RFlat) (atT : Time) (child : Bool) (cls : List Claim) : List Ref :=
   cls.filterMap (fun cl =>
-    if r.matchesAttr cl.attr && w.hasAttrValue cl.pn cl.attr cl.value then relTarget t child cl else none)
+    if r.matchesAttr cl.attr && w.hasAttrValue cl.pn atT cl.attr cl.value then relTarget t child cl else none)
 
-theorem relLoop_any {t : Pk.Ref.Tbl} {w : World} {r : RFlat} {child : Bool} {m : BlobMeta → St → R}
+theorem relLoop_any {t : Pk.Ref.Tbl} {w : World} {r : RFlat} {atT : Time} {child : Bool} {m : BlobMeta → St → R}
     {ψ : BlobMeta → Bool} {F : Prop} (hm : ∀ b s, GoodF (m b s) (ψ b) s F) :
     ∀ (cls : List Claim) (acc : RelAcc) (st : St),
       (∀ cl ∈ cls, ∀ rel, relTarget t child cl = some rel → w.getBlob rel ≠ none) →
       (∀ x ∈ acc.checked, atRef w ψ x = false) →
-      ∃ acc' st', relLoop t w r child true m cls acc st = .ok (acc', st') ∧
-        acc'.anyGood = (acc.anyGood || (relElig t w r child cls).any (atRef w ψ)) ∧ (F → st' = st)
+      ∃ acc' st', relLoop t w r atT child true m cls acc st = .ok (acc', st') ∧
+        acc'.anyGood = (acc.anyGood || (relElig t w r atT child cls).any (atRef w ψ)) ∧ (F → st' = st)
   | [], acc, st, _, _ => ⟨acc, st, rfl, by simp [relElig], fun _ => rfl⟩
   | cl :: cls, acc, st, hb, hc => by
-    have ih := relLoop_any (t := t) (w := w) (r := r) (child := child) hm cls
+    have ih := relLoop_any (t := t) (w := w) (r := r) (atT := atT) (child := child) hm cls
     have hb' : ∀ cl' ∈ cls, ∀ rel, relTarget t child cl' = some rel → w.getBlob rel ≠ none :=
       fun c h => hb c (List.mem_cons_of_mem _ h)
     simp only [relElig] at ih ⊢
@@ -288,7 +288,7 @@ theorem relLoop_any {t : Pk.Ref.Tbl} {w : World} {r : RFlat} {child : Bool} {m :
       cases hrt : relTarget t child cl with
       | none => simpa using ih acc st hb' hc
       | some rel =>
-        cases hha : w.hasAttrValue cl.pn cl.attr cl.value with
+        cases hha : w.hasAttrValue cl.pn atT cl.attr cl.value with
         | false => simpa using ih acc st hb' hc
         | true =>
           cases hck : acc.checked.contains rel with
@@ -317,18 +317,18 @@ theorem relLoop_any {t : Pk.Ref.Tbl} {w : World} {r : RFlat} {child : Bool} {m :
                     | tail _ hx => exact hc x hx)
                 exact ⟨acc', s2, by simp [e1, e2, hmem, hg], by simp [g2, hat, hψ], fun hF => (f2 hF).trans (f1 hF)⟩
 
-theorem relLoop_all {t : Pk.Ref.Tbl} {w : World} {r : RFlat} {child : Bool} {m : BlobMeta → St → R}
+theorem relLoop_all {t : Pk.Ref.Tbl} {w : World} {r : RFlat} {atT : Time} {child : Bool} {m : BlobMeta → St → R}
     {ψ : BlobMeta → Bool} {F : Prop} (hm : ∀ b s, GoodF (m b s) (ψ b) s F) :
     ∀ (cls : List Claim) (acc : RelAcc) (st : St),
       (∀ cl ∈ cls, ∀ rel, relTarget t child cl = some rel → w.getBlob rel ≠ none) →
       (∀ x ∈ acc.checked, atRef w ψ x = true) → (acc.checked ≠ [] → acc.anyGood = true) →
-      ∃ acc' st', relLoop t w r child false m cls acc st = .ok (acc', st') ∧
+      ∃ acc' st', relLoop t w r atT child false m cls acc st = .ok (acc', st') ∧
         (acc'.anyGood && !acc'.anyBad) =
-          ((acc.anyGood || !(relElig t w r child cls).isEmpty) && !acc.anyBad &&
-            (relElig t w r child cls).all (atRef w ψ)) ∧ (F → st' = st)
+          ((acc.anyGood || !(relElig t w r atT child cls).isEmpty) && !acc.anyBad &&
+            (relElig t w r atT child cls).all (atRef w ψ)) ∧ (F → st' = st)
   | [], acc, st, _, _, _ => ⟨acc, st, rfl, by simp [relElig], fun _ => rfl⟩
   | cl :: cls, acc, st, hb, hc, hg0 => by
-    have ih := relLoop_all (t := t) (w := w) (r := r) (child := child) hm cls
+    have ih := relLoop_all (t := t) (w := w) (r := r) (atT := atT) (child := child) hm cls
     have hb' : ∀ cl' ∈ cls, ∀ rel, relTarget t child cl' = some rel → w.getBlob rel ≠ none :=
       fun c h => hb c (List.mem_cons_of_mem _ h)
     simp only [relElig] at ih ⊢
@@ -339,7 +339,7 @@ theorem relLoop_all {t : Pk.Ref.Tbl} {w : World} {r : RFlat} {child : Bool} {m :
       cases hrt : relTarget t child cl with
       | none => simpa using ih acc st hb' hc hg0
       | some rel =>
-        cases hha : w.hasAttrValue cl.pn cl.attr cl.value with
+        cases hha : w.hasAttrValue cl.pn atT cl.attr cl.value with
         | false => simpa using ih acc st hb' hc hg0
         | true =>
           cases hck : acc.checked.contains rel with
@@ -369,11 +369,11 @@ theorem relLoop_all {t : Pk.Ref.Tbl} {w : World} {r : RFlat} {child : Bool} {m :
                     | tail _ hx => exact hc x hx) (fun _ => rfl)
                 exact ⟨acc', s2, by simp [e1, e2, hmem, hg], by simp [g2, hat, hψ], fun hF => (f2 hF).trans (f1 hF)⟩
 
-theorem related_eq (t : Pk.Ref.Tbl) (w : World) (r : RFlat) (pn : Ref)
+theorem related_eq (t : Pk.Ref.Tbl) (w : World) (r : RFlat) (pn : Ref) (atT : Time)
     (hrel : (r.relation == sParent || r.relation == sChild) = true) :
-    related t w r pn = (relElig t w r (r.relation == sChild)
-      (if r.relation == sChild then w.claims.filter (fun c => c.pn == pn)
-       else w.claims.filter (fun c => c.value == pn && refOK t c.value))).eraseDups := by
+    related t w r pn atT = (relElig t w r atT (r.relation == sChild)
+      (if r.relation == sChild then w.claims.filter (fun c => c.pn == pn && inEffect atT c)
+       else w.claims.filter (fun c => c.value == pn && refOK t c.value && inEffect atT c))).eraseDups := by
   cases hch : r.relation == sChild with
   | true =>
     simp only [related, hch, if_true, relElig]
@@ -387,7 +387,8 @@ theorem related_eq (t : Pk.Ref.Tbl) (w : World) (r : RFlat) (pn : Ref)
     | true =>
       have : c.pn = pn := by simpa using h1
       subst this
-      cases r.matchesAttr c.attr <;> cases refOK t c.value <;> cases w.hasAttrValue c.pn c.attr c.value <;> simp
+      cases inEffect atT c <;> cases r.matchesAttr c.attr <;> cases refOK t c.value <;>
+        cases w.hasAttrValue c.pn atT c.attr c.value <;> simp
   | false =>
     rw [hch, Bool.or_false] at hrel
     simp only [related, hch, hrel, if_true, relElig, Bool.false_eq_true, if_false]
@@ -396,8 +397,8 @@ theorem related_eq (t : Pk.Ref.Tbl) (w : World) (r : RFlat) (pn : Ref)
     apply filterMap_filter_eq_map_filter
     intro c
     simp only [relTarget, Bool.false_eq_true, if_false]
-    cases c.value == pn <;> cases r.matchesAttr c.attr <;> cases refOK t c.value <;>
-      cases w.hasAttrValue c.pn c.attr c.value <;> simp
+    cases c.value == pn <;> cases inEffect atT c <;> cases r.matchesAttr c.attr <;> cases refOK t c.value <;>
+      cases w.hasAttrValue c.pn atT c.attr c.value <;> simp
 
 theorem noDangling_target {t : Pk.Ref.Tbl} {w : World} (hd : w.noDangling t = true) {cl : Claim}
     (hcl : cl ∈ w.claims) {child : Bool} {rel : Ref} (h : relTarget t child cl = some rel) :
@@ -419,17 +420,17 @@ theorem noDangling_target {t : Pk.Ref.Tbl} {w : World} (hd : w.noDangling t = tr
       subst h
       intro h2; rw [h2, hr] at h1; simp at h1
 
-theorem GoodF.relMatch {t : Pk.Ref.Tbl} {w : World} (hd : w.noDangling t = true) {r : RFlat} {isAny : Bool}
+theorem GoodF.relMatch {t : Pk.Ref.Tbl} {w : World} (hd : w.noDangling t = true) {r : RFlat} {atT : Time} {isAny : Bool}
     {m : BlobMeta → St → R} {ψ : BlobMeta → Bool} {F : Prop}
     (hrel : (r.relation == sParent || r.relation == sChild) = true)
     (hm : ∀ b s, GoodF (m b s) (ψ b) s F) (pn : Ref) (st : St) :
-    GoodF (Search.relMatch t w r isAny m pn st)
-      (if isAny then (related t w r pn).any (atRef w ψ)
-       else !(related t w r pn).isEmpty && (related t w r pn).all (atRef w ψ)) st F := by
-  rw [related_eq t w r pn hrel, any_eraseDups, all_eraseDups, isEmpty_eraseDups]
+    GoodF (Search.relMatch t w r atT isAny m pn st)
+      (if isAny then (related t w r pn atT).any (atRef w ψ)
+       else !(related t w r pn atT).isEmpty && (related t w r pn atT).all (atRef w ψ)) st F := by
+  rw [related_eq t w r pn atT hrel, any_eraseDups, all_eraseDups, isEmpty_eraseDups]
   simp only [Search.relMatch]
-  generalize hcls : (if (r.relation == sChild) = true then w.claims.filter (fun c => c.pn == pn)
-       else w.claims.filter (fun c => c.value == pn && refOK t c.value)) = cls
+  generalize hcls : (if (r.relation == sChild) = true then w.claims.filter (fun c => c.pn == pn && inEffect atT c)
+       else w.claims.filter (fun c => c.value == pn && refOK t c.value && inEffect atT c)) = cls
   have hsub : ∀ cl ∈ cls, cl ∈ w.claims := by
     intro cl h
     rw [← hcls] at h
@@ -438,10 +439,10 @@ theorem GoodF.relMatch {t : Pk.Ref.Tbl} {w : World} (hd : w.noDangling t = true)
     fun cl h rel hr => noDangling_target hd (hsub cl h) hr
   cases isAny with
   | true =>
-    obtain ⟨acc', s1, e1, g1, f1⟩ := relLoop_any (r := r) hm cls ⟨false, false, []⟩ st hb (by simp)
+    obtain ⟨acc', s1, e1, g1, f1⟩ := relLoop_any (r := r) (atT := atT) hm cls ⟨false, false, []⟩ st hb (by simp)
     exact ⟨s1, by simp [e1, g1], f1⟩
   | false =>
-    obtain ⟨acc', s1, e1, g1, f1⟩ := relLoop_all (r := r) hm cls ⟨false, false, []⟩ st hb (by simp) (by simp)
+    obtain ⟨acc', s1, e1, g1, f1⟩ := relLoop_all (r := r) (atT := atT) hm cls ⟨false, false, []⟩ st hb (by simp) (by simp)
     exact ⟨s1, by simp [e1, g1], f1⟩
 
 /-! ## The scratch slice and the loop over attribute values -/
@@ -539,7 +540,7 @@ def attrValM (p : PFlat) (inSet : Cons) : Str → St → R := fun v s =>
 /-- the `Attr` part of `matchP` -/
 def attrPart (p : PFlat) (inSet : Cons) (bm : BlobMeta) (st : St) : R :=
   if p.attr.isEmpty then .ok (true, st) else
-  let (st0, view) := st.setVals (w.attrVals bm.ref p.attr)
+  let (st0, view) := fetchVals w st bm.ref p.attr p.atT
   if !optInt p.numValue view.2 then .ok (false, st0) else
   if !p.hasValueConstraint inSet.isNil then .ok (true, st0) else
   match valsLoop (attrValM t w p inSet) view view.2 0 0 st0 with
@@ -551,15 +552,15 @@ def attrPart (p : PFlat) (inSet : Cons) (bm : BlobMeta) (st : St) : R :=
 
 /-- the rest of `matchP` -/
 def restPart (p : PFlat) (rel : Option RFlat) (relAny relAll : Cons) (bm : BlobMeta) (st1 : St) : R :=
-  if p.skipHidden && (w.attrVal bm.ref sCamliDefVis == sHide || w.attrVal bm.ref sCamliNodeType == sVenue)
+  if p.skipHidden && (w.attrVal bm.ref sCamliDefVis p.atT == sHide || w.attrVal bm.ref sCamliNodeType p.atT == sVenue)
   then .ok (false, st1) else
   if !optTime p.modTime (w.modTime bm.ref) then .ok (false, st1) else
   if !optTime p.time (w.anyTime bm.ref) then .ok (false, st1) else
   match rel with
   | none => .ok (true, st1)
   | some r =>
-    if !relAny.isNil then relMatch t w r true (fun b s => matchC t w relAny b s) bm.ref st1
-    else relMatch t w r false (fun b s => matchC t w relAll b s) bm.ref st1
+    if !relAny.isNil then relMatch t w r p.atT true (fun b s => matchC t w relAny b s) bm.ref st1
+    else relMatch t w r p.atT false (fun b s => matchC t w relAll b s) bm.ref st1
 
 theorem matchP_mk (p : PFlat) (inSet : Cons) (rel : Option RFlat) (relAny relAll : Cons) (bm : BlobMeta) (st : St) :
     matchP t w (.mk p inSet rel relAny relAll) bm st =
@@ -572,21 +573,21 @@ def valPhi (p : PFlat) (inSet : Cons) (v : Str) : Bool :=
 
 def attrSpec (p : PFlat) (inSet : Cons) (bm : BlobMeta) : Bool :=
   p.attr.isEmpty ||
-    (optInt p.numValue (w.attrVals bm.ref p.attr).length &&
+    (optInt p.numValue (w.attrVals bm.ref p.attr p.atT).length &&
       (!p.hasValueConstraint inSet.isNil ||
-        (((w.attrVals bm.ref p.attr).filter (valPhi t w p inSet)).length != 0 &&
-          (!p.valueAll || ((w.attrVals bm.ref p.attr).filter (valPhi t w p inSet)).length ==
-            (w.attrVals bm.ref p.attr).length))))
+        (((w.attrVals bm.ref p.attr p.atT).filter (valPhi t w p inSet)).length != 0 &&
+          (!p.valueAll || ((w.attrVals bm.ref p.attr p.atT).filter (valPhi t w p inSet)).length ==
+            (w.attrVals bm.ref p.attr p.atT).length))))
 
 def restSpec (p : PFlat) (rel : Option RFlat) (relAny relAll : Cons) (bm : BlobMeta) : Bool :=
-  (!p.skipHidden || (w.attrVal bm.ref sCamliDefVis != sHide && w.attrVal bm.ref sCamliNodeType != sVenue)) &&
+  (!p.skipHidden || (w.attrVal bm.ref sCamliDefVis p.atT != sHide && w.attrVal bm.ref sCamliNodeType p.atT != sVenue)) &&
   optTime p.modTime (w.modTime bm.ref) &&
   optTime p.time (w.anyTime bm.ref) &&
   (match rel with
    | none => true
    | some r =>
-     if !relAny.isNil then (related t w r bm.ref).any (atRef w (matchesC t w relAny))
-     else !(related t w r bm.ref).isEmpty && (related t w r bm.ref).all (atRef w (matchesC t w relAll)))
+     if !relAny.isNil then (related t w r bm.ref p.atT).any (atRef w (matchesC t w relAny))
+     else !(related t w r bm.ref p.atT).isEmpty && (related t w r bm.ref p.atT).all (atRef w (matchesC t w relAll)))
 
 theorem matchesP_mk (p : PFlat) (inSet : Cons) (rel : Option RFlat) (relAny relAll : Cons) (bm : BlobMeta) :
     matchesP t w (.mk p inSet rel relAny relAll) bm =
@@ -624,12 +625,12 @@ theorem good_attr {t : Pk.Ref.Tbl} {w : World} {p : PFlat} {inSet : Cons} {bm : 
   | true => simp; exact GoodF.ok _ _ _
   | false =>
     have hFalse : ∀ s : St, F → s = st := fun s h => by rw [hF h] at ha; cases ha
-    obtain ⟨hlen, hread⟩ := setVals_spec st (w.attrVals bm.ref p.attr)
-    generalize st.setVals (w.attrVals bm.ref p.attr) = sv at hlen hread ⊢
+    obtain ⟨hlen, hread⟩ := fetchVals_spec w st bm.ref p.attr p.atT
+    generalize fetchVals w st bm.ref p.attr p.atT = sv at hlen hread ⊢
     obtain ⟨st0, view⟩ := sv
     simp only at hlen hread ⊢
     simp only [Bool.false_eq_true, if_false, Bool.false_or, hlen]
-    cases optInt p.numValue (w.attrVals bm.ref p.attr).length with
+    cases optInt p.numValue (w.attrVals bm.ref p.attr p.atT).length with
     | false => exact ⟨st0, by simp, hFalse _⟩
     | true =>
       cases p.hasValueConstraint inSet.isNil with
@@ -638,7 +639,7 @@ theorem good_attr {t : Pk.Ref.Tbl} {w : World} {p : PFlat} {inSet : Cons} {bm : 
         rw [valsLoop_spec (φ := valPhi t w p inSet) (vals := w.attrVals bm.ref p.attr)
           (attrValM_spec (hin ha)) _ 0 0 st0 (by omega) hread]
         simp only [List.drop_zero, Nat.zero_add]
-        generalize (List.filter (valPhi t w p inSet) (w.attrVals bm.ref p.attr)).length = g
+        generalize (List.filter (valPhi t w p inSet) (w.attrVals bm.ref p.attr p.atT)).length = g
         refine ⟨st0, ?_, hFalse _⟩
         cases hg : g == 0 with
         | true => simp [hg, bne]
@@ -653,8 +654,8 @@ theorem good_rest {t : Pk.Ref.Tbl} {w : World} (hd : w.noDangling t = true) {p :
     GoodF (restPart t w p rel relAny relAll bm st) (restSpec t w p rel relAny relAll bm) st F := by
   unfold restPart restSpec
   simp only [bne]
-  generalize (w.attrVal bm.ref sCamliDefVis == sHide) = x
-  generalize (w.attrVal bm.ref sCamliNodeType == sVenue) = y
+  generalize (w.attrVal bm.ref sCamliDefVis p.atT == sHide) = x
+  generalize (w.attrVal bm.ref sCamliNodeType p.atT == sVenue) = y
   cases h1 : (p.skipHidden && (x || y)) with
   | true =>
     have : (!p.skipHidden || !x && !y) = false := by
